@@ -30,3 +30,6 @@ void h_str_close(void) { void *arg; VP_HAVOC_GHOSTS(); ws_str_close(arg); VP_CAN
 void h_start_write(void) { nni_ws *ws; VP_HAVOC_GHOSTS(); ws_start_write(ws); VP_CANARY(); }
 void h_write_cb(void) { void *arg; VP_HAVOC_GHOSTS(); ws_write_cb(arg); VP_CANARY(); }
 void h_finish_str(void) { nni_ws *ws; VP_HAVOC_GHOSTS(); ws_read_finish_str(ws); VP_CANARY(); }
+void h_send_control(void) { nni_ws *ws; uint8_t op; uint8_t *buf; size_t len; VP_HAVOC_GHOSTS(); ws_send_control(ws, op, buf, len); VP_CANARY(); }
+void h_send_close(void) { nni_ws *ws; uint16_t code; VP_HAVOC_GHOSTS(); ws_send_close(ws, code); VP_CANARY(); }
+void h_write_cancel(void) { nni_aio *aio; void *arg; nng_err rv; VP_HAVOC_GHOSTS(); ws_write_cancel(aio, arg, rv); VP_CANARY(); }
